@@ -223,7 +223,7 @@ attribute [irreducible] RetAll
 macro "ret_all" "(" t:tactic ")" : tactic => `(tactic|
   repeat' (first
     | with_reducible apply RetAll.stopWith
-    | (with_reducible apply RetAll.pure; $t; done)
+    | ((with_reducible apply RetAll.pure); $t; done)
     | with_reducible apply RetAll.bind_sys
     | with_reducible apply RetAll.bind_errnoErr
     | with_reducible apply RetAll.bind_getErrno
@@ -235,7 +235,7 @@ macro "ret_all" "(" t:tactic ")" : tactic => `(tactic|
 macro "ret_all'" "(" t:tactic ")" : tactic => `(tactic|
   repeat' (first
     | with_reducible apply RetAll.stopWith
-    | (with_reducible apply RetAll.pure; $t; done)
+    | ((with_reducible apply RetAll.pure); $t; done)
     | with_reducible apply RetAll.bind'
     | split
     | intro _
@@ -889,3 +889,642 @@ theorem accept_fdTable {s : Sock} (hc : s.closed = false) {st st' : St} {o : Out
         simp [fdTable]
 
 end PV.Socket
+
+namespace PV.Socket
+open PV.Generated.Socket
+
+/-! ## the calls other than `accept` and `close`: table untouched, `fd` and `closed` of the object kept -/
+
+theorem RetAll.bind_liftLoop {β} {Q : β → Prop} (l : List Res → Int → LoopR) {k : Except PErr Res → M β}
+    (hk : ∀ a, RetAll Q (k a)) : RetAll Q (liftLoop l >>= k) := RetAll.bind' hk
+theorem RetAll.bind_runLoop {β} {Q : β → Prop} (c : LoopCfg) {k : Except PErr Res → M β}
+    (hk : ∀ a, RetAll Q (k a)) : RetAll Q (runLoop c >>= k) := RetAll.bind' hk
+theorem RetAll.bind_ioWait {β} {Q : β → Prop} (s : Sock) (cond : Int) {k : Option PErr → M β}
+    (hk : ∀ a, RetAll Q (k a)) : RetAll Q (ioWait s cond >>= k) := RetAll.bind' hk
+
+/-- `ret_all`, also passing over the retry loops -/
+macro "ret_all_l" "(" t:tactic ")" : tactic => `(tactic|
+  repeat' (first
+    | with_reducible apply RetAll.stopWith
+    | ((with_reducible apply RetAll.pure); $t; done)
+    | with_reducible apply RetAll.bind_sys
+    | with_reducible apply RetAll.bind_errnoErr
+    | with_reducible apply RetAll.bind_getErrno
+    | with_reducible apply RetAll.bind_liftLoop
+    | with_reducible apply RetAll.bind_runLoop
+    | with_reducible apply RetAll.bind_ioWait
+    | split
+    | intro _
+    | dsimp only))
+
+/-- what the calls keep: the object's descriptor and `closed` flag; and they create no socket object -/
+@[reducible] def Keeps (s : Sock) (p : Sock × Outcome) : Prop := p.1.fd = s.fd ∧ p.1.closed = s.closed ∧ p.2.sock = none
+
+theorem checkConnectResult_keeps (s : Sock) : RetAll (Keeps s) (checkConnectResult s) := by
+  unfold checkConnectResult
+  ret_all_l (exact ⟨rfl, rfl, rfl⟩)
+
+theorem connect_keeps (s : Sock) (a : Addr) : RetAll (Keeps s) (connect s a) := by
+  unfold connect
+  ret_all_l (exact ⟨rfl, rfl, rfl⟩)
+  apply RetAll.bind (checkConnectResult_keeps s)
+  intro x hx
+  ret_all_l (first | exact ⟨hx.1, hx.2.1, rfl⟩ | exact hx)
+
+theorem listen_keeps (s : Sock) : RetAll (Keeps s) (listen s) := by
+  unfold listen
+  ret_all_l (exact ⟨rfl, rfl, rfl⟩)
+theorem shutdown_keeps (s : Sock) (rd wr : Bool) : RetAll (Keeps s) (shutdown s rd wr) := by
+  unfold shutdown
+  ret_all_l (first | exact ⟨rfl, rfl, rfl⟩ | (refine ⟨?_, ?_, rfl⟩ <;> split <;> rfl))
+
+theorem bind_nosock (s : Sock) (a : Addr) (r : Bool) : RetAll (fun o => o.sock = none) (bind s a r) := by
+  unfold bind
+  ret_all_l (exact rfl)
+theorem receive_nosock (s : Sock) (bn : Bool) (n : Nat) : RetAll (fun o => o.sock = none) (receive s bn n) := by
+  unfold receive
+  ret_all_l (exact rfl)
+theorem receiveFrom_nosock (s : Sock) (w bn : Bool) (n : Nat) : RetAll (fun o => o.sock = none) (receiveFrom s w bn n) := by
+  unfold receiveFrom
+  ret_all_l (exact rfl)
+theorem send_nosock (s : Sock) (b : Option Bytes) (n : Nat) : RetAll (fun o => o.sock = none) (send s b n) := by
+  unfold send
+  ret_all_l (exact rfl)
+theorem sendTo_nosock (s : Sock) (a : Addr) (b : Option Bytes) (n : Nat) : RetAll (fun o => o.sock = none) (sendTo s a b n) := by
+  unfold sendTo
+  ret_all_l (exact rfl)
+theorem setBufferSize_nosock (s : Sock) (d : Int) (n : Nat) : RetAll (fun o => o.sock = none) (setBufferSize s d n) := by
+  unfold setBufferSize
+  ret_all_l (exact rfl)
+theorem getAddress_nosock (s : Sock) (b : Bool) : RetAll (fun o => o.sock = none) (getAddress s b) := by
+  unfold getAddress
+  ret_all_l (exact rfl)
+theorem setKeepalive_keeps (s : Sock) (k : Bool) :
+    RetAll (fun s' => s'.fd = s.fd ∧ s'.closed = s.closed) (setKeepalive s k) := by
+  unfold setKeepalive
+  ret_all_l (exact ⟨rfl, rfl⟩)
+
+/-- every call except `accept` and `close` keeps the object's `fd` and `closed`, and creates no object -/
+theorem callM_keeps (s : Sock) (c : Call) (h1 : c ≠ .accept) (h2 : c ≠ .close) : RetAll (Keeps s) (callM s c) := by
+  cases c <;> simp only [callM]
+  case accept => exact absurd rfl h1
+  case close => exact absurd rfl h2
+  case connect a => exact connect_keeps s a
+  case listen => exact listen_keeps s
+  case shutdown r w => exact shutdown_keeps s r w
+  case checkConnectResult => exact checkConnectResult_keeps s
+  case bind a r => exact RetAll.bind (bind_nosock s a r) (fun o ho => RetAll.pure ⟨rfl, rfl, ho⟩)
+  case receive bn n => exact RetAll.bind (receive_nosock s bn n) (fun o ho => RetAll.pure ⟨rfl, rfl, ho⟩)
+  case receiveFrom w bn n => exact RetAll.bind (receiveFrom_nosock s w bn n) (fun o ho => RetAll.pure ⟨rfl, rfl, ho⟩)
+  case send b n => exact RetAll.bind (send_nosock s b n) (fun o ho => RetAll.pure ⟨rfl, rfl, ho⟩)
+  case sendTo a b n => exact RetAll.bind (sendTo_nosock s a b n) (fun o ho => RetAll.pure ⟨rfl, rfl, ho⟩)
+  case setBufferSize d n => exact RetAll.bind (setBufferSize_nosock s d n) (fun o ho => RetAll.pure ⟨rfl, rfl, ho⟩)
+  case getLocal => exact RetAll.bind (getAddress_nosock s false) (fun o ho => RetAll.pure ⟨rfl, rfl, ho⟩)
+  case getRemote => exact RetAll.bind (getAddress_nosock s true) (fun o ho => RetAll.pure ⟨rfl, rfl, ho⟩)
+  case setKeepalive k => exact RetAll.bind (setKeepalive_keeps s k) (fun o ho => RetAll.pure ⟨ho.1, ho.2, rfl⟩)
+  case ioWait cnd => ret_all_l (exact ⟨rfl, rfl, rfl⟩)
+  case setBlocking b => exact RetAll.pure ⟨rfl, rfl, rfl⟩
+  case setBacklog n => exact RetAll.pure ⟨by unfold setListenBacklog; split <;> rfl, by unfold setListenBacklog; split <;> rfl, rfl⟩
+  case setTimeout n => exact RetAll.pure ⟨rfl, rfl, rfl⟩
+
+/-- every call except `accept` and `close` issues no `socket()`, no successful `accept()`, no `close()` -/
+theorem callM_fdn (s : Sock) (c : Call) (h1 : c ≠ .accept) (h2 : c ≠ .close) : TrAll FdNeutral (callM s c) := by
+  cases c <;> simp only [callM]
+  case accept => exact absurd rfl h1
+  case close => exact absurd rfl h2
+  case bind a r => unfold bind; tr_all (exact fdNeutral_other _ _ (by simp [Issued.sys]))
+  case listen => unfold listen; tr_all (exact fdNeutral_other _ _ (by simp [Issued.sys]))
+  case shutdown => unfold shutdown; tr_all (exact fdNeutral_other _ _ (by simp [Issued.sys]))
+  case setBufferSize => unfold setBufferSize; tr_all (exact fdNeutral_other _ _ (by simp [Issued.sys]))
+  case setKeepalive => unfold setKeepalive; tr_all (exact fdNeutral_other _ _ (by simp [Issued.sys]))
+  case setBlocking => tr_all (exact fdNeutral_other _ _ (by simp [Issued.sys]))
+  case setBacklog => tr_all (exact fdNeutral_other _ _ (by simp [Issued.sys]))
+  case setTimeout => tr_all (exact fdNeutral_other _ _ (by simp [Issued.sys]))
+  case getLocal => unfold getAddress; tr_all (first | exact fdNeutral_other _ _ (by simp [Issued.sys]) | exact fdNeutral_other _ _ (by split <;> simp [Issued.sys]))
+  case getRemote => unfold getAddress; tr_all (first | exact fdNeutral_other _ _ (by simp [Issued.sys]) | exact fdNeutral_other _ _ (by split <;> simp [Issued.sys]))
+  case checkConnectResult => exact checkConnectResult_fdn _
+  case ioWait cnd => tr_all (exact fdNeutral_other _ _ (by simp [Issued.sys])); exact ioWait_fdn _ _
+  case receive bn n =>
+    unfold receive; tr_all (exact fdNeutral_other _ _ (by simp [Issued.sys]))
+    exact loop_fdn _ _ _ _ (by simp [recvCall, Issued.sys])
+  case receiveFrom w bn n =>
+    unfold receiveFrom; tr_all (exact fdNeutral_other _ _ (by simp [Issued.sys]))
+    exact loop_fdn _ _ _ _ (by simp [recvfromCall, Issued.sys])
+  case send b n =>
+    unfold send; tr_all (exact fdNeutral_other _ _ (by simp [Issued.sys]))
+    exact loop_fdn _ _ _ _ (by simp [sendCall, Issued.sys])
+  case sendTo a b n =>
+    unfold sendTo; tr_all (exact fdNeutral_other _ _ (by simp [Issued.sys]))
+    exact loop_fdn _ _ _ _ (by simp [sendtoCall, Issued.sys])
+  case connect a =>
+    unfold connect; tr_all (exact fdNeutral_other _ _ (by simp [Issued.sys]))
+    all_goals first
+      | exact ioWait_fdn _ _
+      | exact checkConnectResult_fdn _
+      | (apply TrAll.liftLoop
+         intro sc e ev hev
+         have h := connLoop_calls _ _ _ ev hev
+         obtain ⟨c, r⟩ := ev
+         simp only at h; subst h
+         exact fdNeutral_other _ _ (by simp [Issued.sys]))
+
+end PV.Socket
+
+namespace PV.Socket
+open PV.Generated.Socket
+
+/-! ## worlds of socket objects -/
+
+/-- the descriptor an object holds (none once it is marked closed) -/
+def openFdOf (s : Sock) : List Int := if s.closed then [] else [s.fd]
+
+/-- the descriptors held by the live, not-closed objects of a world -/
+def World.openFds (w : World) : List Int := w.flatMap (fun p => openFdOf p.2)
+
+def World.keys (w : World) : List Nat := w.map (·.1)
+
+theorem World.openFds_cons (k : Nat) (s : Sock) (w : World) :
+    World.openFds ((k, s) :: w) = openFdOf s ++ World.openFds w := by
+  simp [World.openFds]
+
+theorem World.openFds_set (w : World) (slot : Nat) (s : Sock) :
+    (w.set slot s).openFds = openFdOf s ++ (w.del slot).openFds := World.openFds_cons _ _ _
+
+theorem World.del_of_get_none {w : World} {slot : Nat} (h : w.get slot = none) : w.del slot = w := by
+  unfold World.get at h
+  unfold World.del
+  rw [List.filter_eq_self]
+  intro a ha
+  simp only [Option.map_eq_none_iff, List.find?_eq_none] at h
+  simpa using h a ha
+
+theorem World.get_del_self (w : World) (slot : Nat) : (w.del slot).get slot = none := by
+  unfold World.get World.del
+  simp only [Option.map_eq_none_iff, List.find?_eq_none]
+  intro a ha
+  simpa using (List.mem_filter.1 ha).2
+
+theorem World.get_del_of_none {w : World} {a b : Nat} (h : w.get a = none) : (w.del b).get a = none := by
+  unfold World.get at h ⊢
+  unfold World.del
+  simp only [Option.map_eq_none_iff, List.find?_eq_none] at h ⊢
+  intro x hx
+  exact h x (List.mem_filter.1 hx).1
+
+theorem World.get_set_ne {w : World} {a b : Nat} (s : Sock) (hab : a ≠ b) (h : w.get a = none) :
+    (w.set b s).get a = none := by
+  have h2 := World.get_del_of_none (b := b) h
+  unfold World.set World.get at *
+  simp only [Option.map_eq_none_iff] at h2 ⊢
+  rw [List.find?_cons]
+  have : decide ((b, s).1 = a) = false := by simpa using fun h => hab h.symm
+  rw [this]
+  exact h2
+
+theorem World.keys_del_nodup {w : World} (slot : Nat) (h : w.keys.Nodup) : (w.del slot).keys.Nodup := by
+  unfold World.keys World.del
+  exact List.Nodup.sublist (List.Sublist.map _ (List.filter_sublist)) h
+
+theorem World.not_mem_keys_del (w : World) (slot : Nat) : slot ∉ (w.del slot).keys := by
+  unfold World.keys World.del
+  intro h
+  obtain ⟨x, hx, hx1⟩ := List.mem_map.1 h
+  have := (List.mem_filter.1 hx).2
+  simp at this
+  exact this hx1
+
+theorem World.keys_set_nodup {w : World} (slot : Nat) (s : Sock) (h : w.keys.Nodup) : (w.set slot s).keys.Nodup := by
+  unfold World.set
+  show ((slot, s).1 :: (w.del slot).keys).Nodup
+  exact List.nodup_cons.2 ⟨World.not_mem_keys_del w slot, World.keys_del_nodup slot h⟩
+
+/-- with distinct keys, a world is its entry at `slot` plus the rest -/
+theorem World.perm_of_get {w : World} (hk : w.keys.Nodup) {slot : Nat} {s : Sock} (h : w.get slot = some s) :
+    List.Perm w ((slot, s) :: w.del slot) := by
+  induction w with
+  | nil => simp [World.get] at h
+  | cons x w ih =>
+    obtain ⟨k, y⟩ := x
+    have hk' : (k :: World.keys w).Nodup := hk
+    obtain ⟨hkn, hkw⟩ := List.nodup_cons.1 hk'
+    by_cases hks : k = slot
+    · subst hks
+      have hy : y = s := by simpa [World.get] using h
+      subst hy
+      have hdel : World.del ((k, y) :: w) k = w := by
+        unfold World.del
+        rw [List.filter_cons]
+        simp only [ne_eq, not_true_eq_false, decide_false, Bool.false_eq_true, if_false]
+        rw [List.filter_eq_self]
+        intro a ha
+        have : a.1 ≠ k := fun h => hkn (h ▸ List.mem_map.2 ⟨a, ha, rfl⟩)
+        simpa using this
+      rw [hdel]
+    · have hget : World.get w slot = some s := by
+        unfold World.get at h ⊢
+        rw [List.find?_cons] at h
+        have : decide ((k, y).1 = slot) = false := by simpa using hks
+        rw [this] at h
+        exact h
+      have hdel : World.del ((k, y) :: w) slot = (k, y) :: World.del w slot := by
+        unfold World.del
+        rw [List.filter_cons]
+        have : decide ((k, y).1 ≠ slot) = true := by simpa using hks
+        rw [this]; rfl
+      rw [hdel]
+      exact ((ih hkw hget).cons (k, y)).trans (List.Perm.swap _ _ _)
+
+theorem World.openFds_of_get {w : World} (hk : w.keys.Nodup) {slot : Nat} {s : Sock} (h : w.get slot = some s) :
+    List.Perm w.openFds (openFdOf s ++ (w.del slot).openFds) := by
+  have := (World.perm_of_get hk h).flatMap_right (fun p => openFdOf p.2)
+  rw [← World.openFds_cons slot s]
+  exact this
+
+end PV.Socket
+
+namespace PV.Socket
+open PV.Generated.Socket
+
+/-! ## the invariant of `fd_closed_once` -/
+
+/-- the kernel's table `T` is, up to order, the list of descriptors held by the live not-closed objects,
+    without repetition; slots are distinct -/
+structure FdInv (w : World) (T : List Int) : Prop where
+  keys : w.keys.Nodup
+  perm : List.Perm T w.openFds
+  nodup : T.Nodup
+
+theorem openFdOf_open {s : Sock} (h : s.closed = false) : openFdOf s = [s.fd] := by simp [openFdOf, h]
+theorem openFdOf_closed {s : Sock} (h : s.closed = true) : openFdOf s = [] := by simp [openFdOf, h]
+theorem openFdOf_congr {s s' : Sock} (h1 : s'.fd = s.fd) (h2 : s'.closed = s.closed) : openFdOf s' = openFdOf s := by
+  simp [openFdOf, h1, h2]
+
+theorem FdInv.empty : FdInv [] [] := ⟨List.nodup_nil, List.Perm.refl _, List.nodup_nil⟩
+
+theorem FdInv.add {w : World} {T : List Int} (h : FdInv w T) {slot : Nat} {s : Sock} (hg : w.get slot = none)
+    (hc : s.closed = false) (hn : s.fd ∉ T) : FdInv (w.set slot s) (s.fd :: T) := by
+  refine ⟨World.keys_set_nodup _ _ h.keys, ?_, List.nodup_cons.2 ⟨hn, h.nodup⟩⟩
+  rw [World.openFds_set, World.del_of_get_none hg, openFdOf_open hc]
+  exact h.perm.cons _
+
+theorem FdInv.replace {w : World} {T : List Int} (h : FdInv w T) {slot : Nat} {s s' : Sock} (hg : w.get slot = some s)
+    (h1 : s'.fd = s.fd) (h2 : s'.closed = s.closed) : FdInv (w.set slot s') T := by
+  refine ⟨World.keys_set_nodup _ _ h.keys, ?_, h.nodup⟩
+  rw [World.openFds_set, openFdOf_congr h1 h2]
+  exact h.perm.trans (World.openFds_of_get h.keys hg)
+
+theorem FdInv.mem {w : World} {T : List Int} (h : FdInv w T) {slot : Nat} {s : Sock} (hg : w.get slot = some s)
+    (hc : s.closed = false) : s.fd ∈ T := by
+  have := h.perm.trans (World.openFds_of_get h.keys hg)
+  rw [openFdOf_open hc] at this
+  exact this.mem_iff.2 (by simp)
+
+theorem FdInv.free_open {w : World} {T : List Int} (h : FdInv w T) {slot : Nat} {s : Sock} (hg : w.get slot = some s)
+    (hc : s.closed = false) : FdInv (w.del slot) (T.erase s.fd) := by
+  refine ⟨World.keys_del_nodup _ h.keys, ?_, h.nodup.erase _⟩
+  have := (h.perm.trans (World.openFds_of_get h.keys hg)).erase s.fd
+  rw [openFdOf_open hc] at this
+  simpa using this
+
+theorem FdInv.free_closed {w : World} {T : List Int} (h : FdInv w T) {slot : Nat} {s : Sock} (hg : w.get slot = some s)
+    (hc : s.closed = true) : FdInv (w.del slot) T := by
+  refine ⟨World.keys_del_nodup _ h.keys, ?_, h.nodup⟩
+  have := h.perm.trans (World.openFds_of_get h.keys hg)
+  rw [openFdOf_closed hc] at this
+  simpa using this
+
+theorem FdInv.close {w : World} {T : List Int} (h : FdInv w T) {slot : Nat} {s s' : Sock} (hg : w.get slot = some s)
+    (hc : s.closed = false) (hc' : s'.closed = true) : FdInv (w.set slot s') (T.erase s.fd) := by
+  have h1 := h.free_open hg hc
+  refine ⟨World.keys_set_nodup _ _ h.keys, ?_, h1.nodup⟩
+  rw [World.openFds_set, openFdOf_closed hc']
+  exact h1.perm
+
+end PV.Socket
+
+namespace PV.Socket
+open PV.Generated.Socket
+
+/-! ## one world-level call -/
+
+/-- what the caller must respect for descriptor accounting to be about the *library*:
+    * a new object (`new`, the result of `accept`) is stored in an empty slot — overwriting a live pointer
+      would leak that object, which is the caller's leak, not the library's;
+    * `p_socket_new_from_fd` on a caller-supplied descriptor is excluded: it transfers ownership of a
+      descriptor that was not obtained by the library. -/
+def WCall.Disciplined (w : World) : WCall → Prop
+  | .new slot _ _ _ => w.get slot = none
+  | .newFromFd _ _ => False
+  | .on slot c newSlot => c = .accept → (w.get newSlot = none ∧ newSlot ≠ slot)
+  | .free _ => True
+  | .initOnce => True
+
+theorem runM_ok_iff {α} {m : M α} {script : Script} {e : Int} {x : α × St × List Ev}
+    (h : runM m script e = .ok x) : m { script := script, errno := e } = .ok x.1 x.2.1 x.2.2 := by
+  obtain ⟨a, st, evs⟩ := x
+  exact runM_ok h
+
+theorem callM_close_ok {s s' : Sock} {o : Outcome} {st st' : St} {evs : List Ev}
+    (h : callM s .close st = .ok (s', o) st' evs) : ∃ e b, close s st = .ok (s', e, b) st' evs := by
+  simp only [callM] at h
+  obtain ⟨⟨s1, e, b⟩, st1, evs1, evs2, h1, h2, rfl⟩ := M.bind_ok h
+  obtain ⟨h3, rfl, rfl⟩ := M.pure_ok h2
+  injection h3 with h3 h4
+  subst h3
+  exact ⟨e, b, by simpa using h1⟩
+
+theorem initOnce_fdn : TrAll FdNeutral initOnce := by
+  unfold initOnce
+  tr_all (exact fdNeutral_other _ _ (by simp [Issued.sys]))
+
+/-- **one API call** (any of them, on any script): given the invariant for the table `T` before the call and the
+    kernel contract on the call's trace, the table after the call is defined — no stray close, no double
+    close — and the invariant holds again -/
+theorem wstep_fdTable {w : World} {c : WCall} {script : Script} {e : Int} {r : WResult}
+    (hstep : wstep w c script e = .ok r) (hd : c.Disciplined w) {T : List Int} (hinv : FdInv w T)
+    (hfr : FreshFrom T r.tr) (hcl : ClosesSucceed r.tr) :
+    ∃ T', fdTable r.tr T = some T' ∧ FdInv r.world T' := by
+  cases c with
+  | newFromFd slot fd => exact absurd hd (by simp [WCall.Disciplined])
+  | new slot f t p =>
+    simp only [wstep] at hstep
+    cases hrun : runM (new f t p) script e with
+    | error x => simp [hrun] at hstep
+    | ok a =>
+      obtain ⟨⟨so, er⟩, st, evs⟩ := a
+      simp only [hrun] at hstep
+      injection hstep with hstep; subst hstep
+      have h := new_fdTable (runM_ok hrun) T hfr
+      cases so with
+      | none => exact ⟨T, h, hinv⟩
+      | some s =>
+        obtain ⟨hc, hn, ht⟩ := h
+        exact ⟨s.fd :: T, ht, hinv.add hd hc hn⟩
+  | initOnce =>
+    simp only [wstep] at hstep
+    cases hrun : runM initOnce script e with
+    | error x => simp [hrun] at hstep
+    | ok a =>
+      obtain ⟨u, st, evs⟩ := a
+      simp only [hrun] at hstep
+      injection hstep with hstep; subst hstep
+      exact ⟨T, fdTable_neutral' _ (TrAll.elim initOnce_fdn (runM_ok hrun)) T, hinv⟩
+  | free slot =>
+    simp only [wstep] at hstep
+    cases hg : w.get slot with
+    | none =>
+      simp only [hg] at hstep
+      injection hstep with hstep; subst hstep
+      exact ⟨T, rfl, hinv⟩
+    | some s =>
+      simp only [hg] at hstep
+      cases hrun : runM (free s) script e with
+      | error x => simp [hrun] at hstep
+      | ok a =>
+        obtain ⟨u, st, evs⟩ := a
+        simp only [hrun] at hstep
+        injection hstep with hstep; subst hstep
+        rcases free_ok (runM_ok hrun) with ⟨hc, rfl⟩ | ⟨hc, rc, rfl⟩
+        · exact ⟨T, rfl, hinv.free_closed hg hc⟩
+        · refine ⟨T.erase s.fd, ?_, hinv.free_open hg hc⟩
+          show fdTable [⟨.close s.fd, rc⟩] T = _
+          rw [fdTable_close _ _ _ _ (hinv.mem hg hc)]; rfl
+  | on slot c newSlot =>
+    simp only [wstep] at hstep
+    cases hg : w.get slot with
+    | none =>
+      simp only [hg] at hstep
+      injection hstep with hstep; subst hstep
+      exact ⟨T, rfl, hinv⟩
+    | some s =>
+      simp only [hg] at hstep
+      cases hrun : runM (callM s c) script e with
+      | error x => simp [hrun] at hstep
+      | ok a =>
+        obtain ⟨⟨s', o⟩, st, evs⟩ := a
+        simp only [hrun] at hstep
+        injection hstep with hstep; subst hstep
+        have hrun := runM_ok hrun
+        by_cases hacc : c = .accept
+        · subst hacc
+          obtain ⟨hnew, hne⟩ := hd rfl
+          obtain ⟨hss, hrun⟩ := callM_accept_ok hrun
+          subst hss
+          cases hc : s'.closed with
+          | true =>
+            obtain ⟨ho, rfl⟩ := accept_closed hc hrun
+            simp only [ho]
+            exact ⟨T, rfl, hinv.replace hg rfl rfl⟩
+          | false =>
+            have h := accept_fdTable hc hrun T hfr
+            cases ho : o.sock with
+            | none =>
+              simp only [ho] at h ⊢
+              exact ⟨T, h, hinv.replace hg rfl rfl⟩
+            | some ns =>
+              simp only [ho] at h ⊢
+              obtain ⟨hcn, hn, ht⟩ := h
+              exact ⟨ns.fd :: T, ht, (hinv.replace hg rfl rfl).add (World.get_set_ne _ hne hnew) hcn hn⟩
+        · by_cases hclose : c = .close
+          · subst hclose
+            obtain ⟨er, b, hrun'⟩ := callM_close_ok hrun
+            have hos : o.sock = none := by
+              simp only [callM] at hrun
+              obtain ⟨⟨s1, e1, b1⟩, st1, evs1, evs2, h1, h2, rfl⟩ := M.bind_ok hrun
+              obtain ⟨h3, _, _⟩ := M.pure_ok h2
+              injection h3 with _ h4
+              rw [h4]
+            simp only [hos]
+            rcases close_ok hrun' with ⟨hc, rfl, rfl⟩ | ⟨hc, rc, rfl, hrc⟩
+            · exact ⟨T, rfl, hinv.replace hg rfl rfl⟩
+            · have h0 : rc.ret = .ok 0 := hcl ⟨.close s.fd, rc⟩ (by simp) rfl
+              rcases hrc with ⟨_, rfl⟩ | ⟨hne, _⟩
+              · refine ⟨T.erase s.fd, ?_, hinv.close hg hc rfl⟩
+                show fdTable [⟨.close s.fd, rc⟩] T = _
+                rw [fdTable_close _ _ _ _ (hinv.mem hg hc)]; rfl
+              · exact absurd h0 hne
+          · obtain ⟨h1, h2, h3⟩ := RetAll.elim (callM_keeps s c hacc hclose) hrun
+            simp only at h1 h2 h3
+            simp only [h3]
+            exact ⟨T, fdTable_neutral' _ (TrAll.elim (callM_fdn s c hacc hclose) hrun) T, hinv.replace hg h1 h2⟩
+
+end PV.Socket
+
+namespace PV.Socket
+open PV.Generated.Socket
+
+/-- **`p_socket_close`** on an open object whose descriptor is in the table, `close()` succeeding: exactly that
+    number leaves the table, the object is marked closed with `fd = −1`; on a closed object: nothing -/
+theorem close_fdTable {s s' : Sock} {e : Option PErr} {b : Bool} {st st' : St} {evs : List Ev}
+    (h : close s st = .ok (s', e, b) st' evs) (hcl : ClosesSucceed evs) (T : List Int) (hm : s.closed = false → s.fd ∈ T) :
+    (s.closed = true → evs = [] ∧ s' = s) ∧
+    (s.closed = false → fdTable evs T = some (T.erase s.fd) ∧ s'.closed = true ∧ s'.fd = -1) := by
+  rcases close_ok h with ⟨hc, rfl, rfl⟩ | ⟨hc, rc, rfl, hrc⟩
+  · exact ⟨fun _ => ⟨rfl, rfl⟩, fun h => by rw [hc] at h; cases h⟩
+  · refine ⟨fun h => by rw [hc] at h; cases h, fun _ => ?_⟩
+    have h0 : rc.ret = .ok 0 := hcl ⟨.close s.fd, rc⟩ (by simp) rfl
+    rcases hrc with ⟨_, rfl⟩ | ⟨hne, _⟩
+    · refine ⟨?_, rfl, rfl⟩
+      rw [fdTable_close _ _ _ _ (hm hc)]; rfl
+    · exact absurd h0 hne
+
+/-- **`p_socket_free`**: an open object's descriptor leaves the table (whatever `close()` returns); a closed
+    object: no native call -/
+theorem free_fdTable {s : Sock} {u : Unit} {st st' : St} {evs : List Ev} (h : free s st = .ok u st' evs)
+    (T : List Int) (hm : s.closed = false → s.fd ∈ T) :
+    (s.closed = true → evs = []) ∧ (s.closed = false → fdTable evs T = some (T.erase s.fd)) := by
+  rcases free_ok h with ⟨hc, rfl⟩ | ⟨hc, rc, rfl⟩
+  · exact ⟨fun _ => rfl, fun h => by rw [hc] at h; cases h⟩
+  · refine ⟨fun h => by rw [hc] at h; cases h, fun _ => ?_⟩
+    rw [fdTable_close _ _ _ _ (hm hc)]; rfl
+
+/-! ## C10 `fd_closed_once` -/
+
+/-- the states reachable from the empty world by disciplined API calls — each call on an arbitrary script and
+    with an arbitrary `errno` at entry; `tr` is the concatenation of the traces of the calls made so far -/
+inductive Reach : World → List Ev → Prop
+  | init : Reach [] []
+  | step {w : World} {tr : List Ev} {c : WCall} {script : Script} {e : Int} {r : WResult} :
+      Reach w tr → c.Disciplined w → wstep w c script e = .ok r → Reach r.world (tr ++ r.tr)
+
+/-- **fd_closed_once.**  Along any sequence of API calls (new / any call on a socket, incl. accept and close /
+    free / init_once, in any order, on any scripts), under the kernel contract — descriptor numbers handed out
+    by `socket()` / `accept()` are not currently open (`FreshFrom []`), `close()` returns 0 (`ClosesSucceed`) —
+    the kernel's descriptor table of the whole trace is **defined**: no descriptor number is ever passed to
+    `close()` without having been obtained, or twice; and the open numbers are exactly (as a multiset, without
+    repetition) the `fd` fields of the live objects not marked closed. -/
+theorem fd_closed_once {w : World} {tr : List Ev} (h : Reach w tr) (hfr : FreshFrom [] tr) (hcl : ClosesSucceed tr) :
+    ∃ T, fdTable tr [] = some T ∧ FdInv w T := by
+  induction h with
+  | init => exact ⟨[], rfl, FdInv.empty⟩
+  | step hreach hd hstep ih =>
+    obtain ⟨T, hT, hinv⟩ := ih hfr.left hcl.left
+    obtain ⟨T', hT', hinv'⟩ := wstep_fdTable hstep hd hinv (hfr.right hT) hcl.right
+    exact ⟨T', by rw [fdTable_append, hT]; exact hT', hinv'⟩
+
+/-- … hence once every object has been freed (or closed), every descriptor obtained from `socket()` /
+    `accept()` has been passed to `close()` exactly once: the table is defined and empty -/
+theorem fd_closed_once_balanced {w : World} {tr : List Ev} (h : Reach w tr) (hfr : FreshFrom [] tr)
+    (hcl : ClosesSucceed tr) (hall : w.openFds = []) : fdTable tr [] = some [] := by
+  obtain ⟨T, hT, hinv⟩ := fd_closed_once h hfr hcl
+  have := hinv.perm
+  rw [hall] at this
+  rw [hT, List.Perm.eq_nil this]
+
+theorem fd_closed_once_all_freed {tr : List Ev} (h : Reach [] tr) (hfr : FreshFrom [] tr) (hcl : ClosesSucceed tr) :
+    fdTable tr [] = some [] :=
+  fd_closed_once_balanced h hfr hcl rfl
+
+/-- the same for a sequence run as a function, the script and `errno` threaded from call to call -/
+def wrun (w : World) (tr : List Ev) : List WCall → Script → Int → Except Stop (World × List Ev)
+  | [], _, _ => .ok (w, tr)
+  | c :: cs, sc, e =>
+    match wstep w c sc e with
+    | .error x => .error x
+    | .ok r => wrun r.world (tr ++ r.tr) cs r.rest r.errno
+
+/-- every call of the sequence respects `WCall.Disciplined` in the world it is made in -/
+def DisciplinedRun (w : World) : List WCall → Script → Int → Prop
+  | [], _, _ => True
+  | c :: cs, sc, e =>
+    c.Disciplined w ∧
+    match wstep w c sc e with
+    | .error _ => True
+    | .ok r => DisciplinedRun r.world cs r.rest r.errno
+
+theorem reach_of_wrun {w : World} {tr : List Ev} (h : Reach w tr) : ∀ (cs : List WCall) (sc : Script) (e : Int)
+    {w' : World} {tr' : List Ev}, DisciplinedRun w cs sc e → wrun w tr cs sc e = .ok (w', tr') → Reach w' tr' := by
+  intro cs
+  induction cs generalizing w tr with
+  | nil =>
+    intro sc e w' tr' _ hr
+    simp only [wrun] at hr
+    injection hr with hr
+    injection hr with h1 h2
+    subst h1; subst h2
+    exact h
+  | cons c cs ih =>
+    intro sc e w' tr' hd hr
+    simp only [wrun] at hr
+    simp only [DisciplinedRun] at hd
+    cases hs : wstep w c sc e with
+    | error x => simp [hs] at hr
+    | ok r =>
+      simp only [hs] at hr hd
+      exact ih (Reach.step h hd.1 hs) _ _ hd.2 hr
+
+theorem fd_closed_once_run (cs : List WCall) (script : Script) (e : Int) (w : World) (tr : List Ev)
+    (hd : DisciplinedRun [] cs script e) (hr : wrun [] [] cs script e = .ok (w, tr))
+    (hfr : FreshFrom [] tr) (hcl : ClosesSucceed tr) :
+    ∃ T, fdTable tr [] = some T ∧ FdInv w T :=
+  fd_closed_once (reach_of_wrun Reach.init cs script e hd hr) hfr hcl
+
+/-! ### outside the contract: `close()` fails
+
+`p_socket_close` reports the error and keeps `fd` (the object is not marked closed); a later
+`p_socket_free` calls `close (fd)` again: the same number is passed to `close()` twice.  (On Linux the first
+`close()` has released the number even though it returned −1 — `fdTable` models that — so the second one is
+a stray close: the table is `none`.) -/
+
+def demoOpenSock : Sock := { family := AF_INET, protocol := 6, type := 1, fd := 5, listen_backlog := 5, blocking := true }
+
+/-- `close()` → EINTR: `p_socket_close` returns FALSE with an error; the object still holds fd 5, not closed -/
+example :
+    (wstep [(0, demoOpenSock)] (.on 0 .close) [{ sys := .close, ret := .err EINTR }]).toOption.map
+      (fun r1 => (r1.out.ret, r1.out.err.isSome, (r1.world.get 0).map (fun s => (s.fd, s.closed)))) =
+    some (0, true, some (5, false)) := by decide
+
+/-- … and the `p_socket_free` that follows passes 5 to `close()` a second time -/
+example :
+    ((wstep [(0, demoOpenSock)] (.on 0 .close) [{ sys := .close, ret := .err EINTR }]).toOption.bind fun r1 =>
+      (wstep r1.world (.free 0) [{ sys := .close, ret := .ok 0 }]).toOption.map fun r2 =>
+        ((r1.tr ++ r2.tr).map (fun ev => (ev.call, ev.res.ret)), (r2.world.get 0).isSome,
+         fdTable (r1.tr ++ r2.tr) [5])) =
+    some ([(.close 5, .err EINTR), (.close 5, .ok 0)], false, none) := by decide
+
+/-- inside the contract, the path where `p_socket_new_from_fd` fails inside `p_socket_accept`
+    (`getsockopt (SO_TYPE)` fails on the accepted descriptor 7): `accept` closes 7 itself, nothing is returned,
+    the table is what it was -/
+example :
+    (call { demoOpenSock with listening := true } .accept
+      [{ sys := .poll, ret := .ok 1 }, { sys := .accept, ret := .ok 7 }, { sys := .fcntl, ret := .ok 1 },
+       { sys := .getsockopt, ret := .err EBADF }, { sys := .close, ret := .ok 0 }]).toOption.map
+      (fun r => (r.out.ret, r.out.sock.isSome, r.tr.map (·.call) |>.filter (fun c => c.sys == .accept || c.sys == .close),
+                 fdTable r.tr [5])) =
+    some (0, false, [.accept 5, .close 7], some [5]) := by decide
+
+/-- the path where `pp_socket_set_fd_blocking` fails inside `p_socket_new`: `p_socket_free` closes the descriptor -/
+example :
+    (runM (new AF_INET P_SOCKET_TYPE_STREAM P_SOCKET_PROTOCOL_TCP)
+      [{ sys := .socket, ret := .ok 7 }, { sys := .fcntl, ret := .ok 1 }, { sys := .fcntl, ret := .ok 2 },
+       { sys := .fcntl, ret := .err EBADF }, { sys := .close, ret := .ok 0 }] 0).toOption.map
+      (fun x => (x.1.1.isSome, x.2.2.map (·.call) |>.filter (fun c => c.sys == .socket || c.sys == .close),
+                 fdTable x.2.2 [])) =
+    some (false, [.socket AF_INET 524289 P_SOCKET_PROTOCOL_TCP, .close 7], some []) := by decide
+
+end PV.Socket
+
+namespace PV.Socket
+open PV.Generated.Socket
+
+/-- non-vacuity: `new` → 7, `accept` on it → 8 (fd 8 adopted by `new_from_fd`), both freed:
+    every number closed exactly once, table empty at the end -/
+example :
+    (wrun [] [] [.new 0 AF_INET P_SOCKET_TYPE_STREAM P_SOCKET_PROTOCOL_TCP, .on 0 .accept 1, .free 0, .free 1]
+      ([{ sys := .socket, ret := .ok 7 }, { sys := .fcntl, ret := .ok 1 }, { sys := .fcntl, ret := .ok 2 }, { sys := .fcntl, ret := .ok 0 },
+        { sys := .poll, ret := .ok 1 }, { sys := .accept, ret := .ok 8 }, { sys := .fcntl, ret := .ok 0 }, { sys := .fcntl, ret := .ok 0 }]
+       ++ newFromFdAnswers ++ [{ sys := .close, ret := .ok 0 }, { sys := .close, ret := .ok 0 }]) 0).toOption.map
+      (fun x => (x.1.length, x.2.map (·.call) |>.filter (fun c => c.sys == .socket || c.sys == .accept || c.sys == .close),
+                 fdTable x.2 [])) =
+    some (0, [.socket AF_INET 524289 P_SOCKET_PROTOCOL_TCP, .accept 7, .close 7, .close 8], some []) := by decide
+
+end PV.Socket
+
+open PV.Socket in
+#print axioms cloexec_new
+open PV.Socket in
+#print axioms cloexec_accept
+open PV.Socket in
+#print axioms fd_closed_once_run
+open PV.Socket in
+#print axioms fd_closed_once_balanced
